@@ -547,7 +547,7 @@ func (w *World) enumPaths(fn *ssa.Function, o EnumOpts) EnumResult {
 					nf.order = append(nf.order, 'E')
 				}
 				// inline a small module helper
-				if call, ok := in.(*ssa.Call); ok && !exiting && o.Inline && !o.NoInline && depth < 3 {
+				if call, ok := in.(*ssa.Call); ok && !exiting && o.Inline && !o.NoInline && depth < 5 {
 					sameBinding := func(callee *ssa.Function) bool {
 						use(&nf)
 						for i, prm := range callee.Params {
